@@ -13,6 +13,7 @@
 #define ABTD_ASM_INT128_CAS_H_INCLUDED
 static inline int ABTD_asm_bool_cas_weak_int128(__int128 *var, __int128 oldv, __int128 newv)
 { __CPROVER_assert(*var == oldv, "CAS of an uninterrupted operation succeeds"); *var = newv; return 1; }
+#include "vr_hooks.h"
 #include "abti.h"
 #include "stub_io.h"
 ABTI_global *gp_ABTI_global; ABTD_XSTREAM_LOCAL ABTI_local *lp_ABTI_local;
@@ -24,6 +25,15 @@ static blk_t *const BP[NB] = { &B0, &B1, &B2, &B3, &B4, &B5, &B6, &B7, &B8, &B9,
 /* pools: 0 ES0.desc 1 ES0.stack 2 ES1.desc 3 ES1.stack 4 G.desc_ext 5 G.stack_ext ; class = index & 1 (0 desc, 1 stack) */
 static ABTI_mem_pool_local_pool *pool(int i) { return i == 0 ? &ES0.mem_pool_desc : i == 1 ? &ES0.mem_pool_stack : i == 2 ? &ES1.mem_pool_desc : i == 3 ? &ES1.mem_pool_stack : i == 4 ? &G.mem_pool_desc_ext : &G.mem_pool_stack_ext; }
 static int where[NB];
+/* lock discipline monitor: called before every atomic access (lock acquire / release).  A global *_ext pool may only change
+ * while ITS lock is held: at the release point the pool has changed since the previous point and the lock is still held. */
+static void *last_desc_head, *last_stack_head; static int monitor_on, bad_lock;
+void vr_sp(void)
+{
+    if (!monitor_on) return;
+    if ((void *)G.mem_pool_desc_ext.buckets[0] != last_desc_head) { if (!G.mem_pool_desc_lock.val.val) bad_lock = 1; last_desc_head = G.mem_pool_desc_ext.buckets[0]; }
+    if ((void *)G.mem_pool_stack_ext.buckets[0] != last_stack_head) { if (!G.mem_pool_stack_lock.val.val) bad_lock = 1; last_stack_head = G.mem_pool_stack_ext.buckets[0]; }
+}
 int ABTU_alloc_largepage(size_t size, size_t a, const ABTU_MEM_LARGEPAGE_TYPE *t, int nt, ABTU_MEM_LARGEPAGE_TYPE *pa, void **pp) { return ABT_ERR_MEM; }
 int ABTU_mprotect(void *p, size_t s, ABT_bool b) { return ABT_SUCCESS; }
 int ABTI_mem_pool_take_bucket(ABTI_mem_pool_global_pool *g, ABTI_mem_pool_header **b) { __CPROVER_assert(0, "no refill in this scenario"); return ABT_ERR_MEM; }
@@ -56,6 +66,7 @@ int main(void)
         BP[2 * q]->h.p_next = &BP[2 * q + 1]->h; BP[2 * q]->h.bucket_info.num_headers = 2; BP[2 * q + 1]->h.p_next = NULL;
         lp->buckets[0] = &BP[2 * q]->h;
     }
+    last_desc_head = G.mem_pool_desc_ext.buckets[0]; last_stack_head = G.mem_pool_stack_ext.buckets[0]; monitor_on = 1;
     ABTI_local *alloc_id = (ABTI_local *)&ES0;
     int f = nondet_int(); __CPROVER_assume(f >= 0 && f <= 2);
     ABTI_local *free_id = f == 0 ? (ABTI_local *)&ES0 : f == 1 ? (ABTI_local *)&ES1 : NULL;
@@ -93,6 +104,8 @@ int main(void)
         VR_ASSERT(where[b] == (f == 0 ? 0 : f == 1 ? 2 : 4) + cls, "a block is returned to the freeing stream's own pool, or to the global pool for external threads");
     }
     for (int i = 0; i < NB; i++) if (i != b) VR_ASSERT(where[i] == i / 2, "other blocks stay where they were");
+    monitor_on = 0;
+    VR_ASSERT(!bad_lock, "a global (*_ext) pool is modified only while ITS OWN lock is held (two different locks around one pool do not exclude each other)");
     VR_ASSERT(G.mem_pool_desc_lock.val.val == 0 && G.mem_pool_stack_lock.val.val == 0, "global pool locks released");
     if (f == 2) VR_WITNESS("freed by an external thread into the global pool");
     if (f == 1) VR_WITNESS("freed on another stream");
